@@ -780,7 +780,7 @@ def classify(I: dict, e: BaseException) -> str:
         if t == "missing":
             return "missing"
         if t in ("model_type", "dict_type", "model_attributes_type"):
-            return "not-dict" if not er["loc"] or all(isinstance(x, str) and x in TAGS for x in er["loc"]) else "lax-or-invalid"
+            return "not-dict" if not er["loc"] else "lax-or-invalid"
         return "lax-or-invalid"
     s = str(e)
     if isinstance(e, TypeError):
